@@ -584,6 +584,96 @@ def rule_MP14(rep, prog, q):
         rep.unknown(rid, "expected the two head restores of _dispatch_root_queue_drain_one, found %d" % n)
 
 
+def rule_MP15(rep, prog, q):
+    rid = rep.rule("C01-MP15", "the drainer's exit code tells the unlock whether the list may still hold items: the exit of _dispatch_lane_drain taken because no width "
+                   "could be had (owned reduced to the enqueued bits only) returns WAIT_FOR_EVENT - not NONE, which means 'drained' and lets the unlock clear DIRTY "
+                   "without looking, so that a reader returning its width no longer re-drives the queue and the items still listed wait for every in-flight item", floor=2)
+    fn = prog.fn("_dispatch_lane_drain")
+    rep.saw(fn)
+    M64 = (1 << 64) - 1
+    ENQ = q.ENQUEUED | q.ENQUEUED_ON_MGR
+    n = 0
+    for st in fn.all_insts():
+        if st.op != "store" or list(st.d["ptr"]["base"][:2]) != ["a", 3]:
+            continue
+        v = fn.inst(st.ops[0])
+        if v is None or v.op != "and" or not (v.ops[1][0] == "c" and v.ops[1][1] == ENQ):
+            continue
+        l = fn.inst(v.ops[0])
+        if l is None or l.op != "load":
+            continue
+        n += 1
+        for kind, inst, cx, path in paths.walk(fn, st, lambda i: False):
+            if kind != "exit":
+                continue
+            r = cx.resolve(inst.ops[0])
+            val = None
+            if r[0] == "c":
+                val = r[1]
+            elif r[0] == "ce" and len(r) > 2 and isinstance(r[2], (list, tuple)) and r[2][0] == "c":
+                val = r[2][1]
+            elif r[0] == "n":
+                val = 0
+            rep.require(rid, val == M64, inst.loc, fn.name, "no-width-exit-reports-drained",
+                        "_dispatch_lane_drain leaves through its 'no width available' exit returning %s instead of DISPATCH_QUEUE_WAKEUP_WAIT_FOR_EVENT: the caller takes "
+                        "NONE for 'the list is empty' and unlocks with done = true" % (hex(val) if val is not None else r,), sample={"store": st.loc})
+    # ... and conversely: on the way out with WAIT_FOR_EVENT the drainer reports that it owns nothing but the enqueued bits - the width it held was already
+    # given back by the failed upgrade / acquisition; reporting `owned` again makes the unlock subtract it a second time (a parked barrier's reservation is
+    # cancelled while PENDING_BARRIER stays set: the next drainer starts the barrier beside running readers)
+    for b in fn.blocks:
+        t = b.term
+        if t.op != "ret" or not t.ops:
+            continue
+        ph = fn.inst(t.ops[0])
+        incoming = [(v, frm) for v, frm in ph.ops] if ph is not None and ph.op == "phi" else [(t.ops[0], b.id)]
+        for v, frm in incoming:
+            val = v[1] if v[0] == "c" else (v[2][1] if v[0] == "ce" and len(v) > 2 and isinstance(v[2], (list, tuple)) and v[2][0] == "c" else None)
+            if val != M64:
+                continue
+            sts = [st for st in fn.blocks[frm].insts if st.op == "store" and list(st.d["ptr"]["base"][:2]) == ["a", 3]]
+            if not sts:
+                rep.unknown(rid, "the WAIT_FOR_EVENT exit of _dispatch_lane_drain does not store *owned_ptr in its own block")
+                continue
+            n += 1
+            last = fn.inst(sts[-1].ops[0])
+            okm = last is not None and last.op == "and" and last.ops[1][0] == "c" and last.ops[1][1] == ENQ and fn.inst(last.ops[0]) is not None and fn.inst(last.ops[0]).op == "load"
+            rep.require(rid, okm, sts[-1].loc, fn.name, "no-width-exit-reports-owned-width",
+                        "_dispatch_lane_drain leaves with WAIT_FOR_EVENT reporting *owned_ptr = something other than (*owned_ptr & (ENQUEUED | ENQUEUED_ON_MGR)): the width "
+                        "was already returned to dq_state on this path and is subtracted again by the unlock", sample={"store": sts[-1].loc})
+    if n < 2:
+        rep.unknown(rid, "the 'no width' exit of _dispatch_lane_drain (owned &= ENQUEUED | ENQUEUED_ON_MGR; return WAIT_FOR_EVENT) was not found from both sides (%d)" % n)
+
+
+def rule_MP16(rep, prog, q):
+    rid = rep.rule("C01-MP16", "run-loop serviced main queue: every poke of the main queue's wake-up handle is preceded by its lazy creation (dispatch_once on "
+                   "_dispatch_main_q_handle_pred) - also on the path where the state compare-exchange gives up unchanged, which is the path every ordinary push "
+                   "takes; a poke on a handle that does not exist yet is dropped, and the eventfd created later starts at 0: the items are never run", floor=1)
+    from .sync_common import entry_point
+    fn = prog.fn("_dispatch_runloop_queue_poke")
+    rep.saw(fn)
+    pokes = calls_named(fn, "_dispatch_runloop_queue_class_poke")
+    inits = [c for c in fn.all_insts() if c.op == "call" and c.callee in ("dispatch_once_f", "_dispatch_once_f", "dispatch_once")
+             and any(o[0] == "g" and "main_q_handle_pred" in str(o[1]) for o in c.ops)]
+    ttests = [t for t in fn.all_insts() if t.op == "icmp" and t.d["pred"] in ("eq", "ne") and any(o[0] == "c" for o in t.ops)
+              and fn.inst(t.ops[0]) is not None and "do_type" in (prog.fields(fn.inst(t.ops[0])) if fn.inst(t.ops[0]).op == "load" else set())]
+    if not pokes or not inits:
+        rep.unknown(rid, "anchor vanished in _dispatch_runloop_queue_poke (pokes=%d, handle initialisations=%d)" % (len(pokes), len(inits)))
+        return
+    for p_ in pokes:
+        bare = []
+        for kind, inst, cx, path in paths.walk(fn, entry_point(fn), lambda i: i is p_, avoid=lambda i: i in inits):
+            if kind != "hit":
+                continue
+            # a path that established "not the main queue" needs no main-queue handle
+            not_main = any(cx.truth.get(t.id) == (t.d["pred"] == "ne") for t in ttests)
+            if not not_main:
+                bare.append(path)
+        rep.require(rid, not bare, p_.loc, fn.name, "main-queue-poke-before-handle-init",
+                    "_dispatch_runloop_queue_poke can poke the main queue's handle on a path (%s) that has not passed the lazy creation of that handle: the wake-up for "
+                    "'the main queue became non-empty' is dropped when work is submitted before the run loop first fetched the handle" % (bare[0] if bare else None),
+                    sample={"poke": p_.loc})
+
+
 def rule_CP13(rep, prog, q):
     from .sync_common import rule_cas_memoryless
     rid = rep.rule("C01-CP13", "every compare-exchange retry loop in the library is memoryless: besides the re-read word nothing computed by a failed attempt (a flag, "
@@ -641,11 +731,19 @@ def run(rep, tier="quick", srcdir=None, only=None):
             rule_CP13(rep, allprog, q)
     if want("C01-MP14"):
         rule_MP14(rep, prog, q)
+    if want("C01-MP15"):
+        rule_MP15(rep, prog, q)
+    if want("C01-MP16"):
+        rule_MP16(rep, prog, q)
     if want("C01-AI11"):
         rule_AI11(rep, ir.Program(build.facts_for(["event/workqueue"], srcdir=srcdir)), q)
     if want("C03-MP11"):
         from . import C03
         C03.rule_MP11(rep, prog, q)
+    if want("C03-MP9"):
+        # chained queues: the role bits that steer the sync hand-off follow the target the queue actually has (shared with C03)
+        from . import C03
+        C03.rule_MP9(rep, prog, q)
     if want("C03-MP5"):
         # chained queues: a waiter pushed down a hierarchy carries the lock kind of the level it is queued on, or that level is never released (shared with C03)
         from . import C03
